@@ -233,6 +233,28 @@ pub mod inv {
         if let Some(b) = (16..blocks).find(|b| owner[*b].is_none() && !free[*b]) {
             let n = (16..blocks).filter(|b| owner[*b].is_none() && !free[*b]).count();
             out.push(Finding { props: own, what: format!("{} data blocks are neither live nor free (leaked), first {} (format v{})", n, b, version) });
+            // … and when such a block still carries a record head that the format's own reader accepts, the file
+            // holds a record of a key the store does not have: an independent reader (or the next open) finds it
+            if let Ok(img) = std::fs::read(path) {
+                let format = feoxdb::storage::format::get_format(version);
+                for g in (16..blocks).filter(|b| owner[*b].is_none() && !free[*b]) {
+                    let o = g * BS;
+                    if o + BS > img.len() || !(img[o] == 0xCD && img[o + 1] == 0xAB) { continue; }
+                    if let Some((key, vlen, _ts, _exp)) = format.parse_record(&img[o..o + BS]) {
+                        let need = (header(version, key.len()) + vlen as usize).div_ceil(BS).max(1);
+                        let tok_ok = version < 3 || (o + need * BS <= img.len() && {
+                            let mut ext = img[o..o + need * BS].to_vec();
+                            let stored = [ext[2], ext[3]];
+                            feoxdb::verif::pure::stamp_seq_token(&mut ext, g as u64, version);
+                            [ext[2], ext[3]] == stored
+                        });
+                        if !key.is_empty() && vlen > 0 && tok_ok && !snap.iter().any(|r| r.key == key && r.sector as usize == g) {
+                            out.push(Finding { props: &["C10", "C02"], what: format!("after an acknowledged flush block {} of the device file holds a complete, valid record of key {} which the store does not have there (an independent reader of the file finds it; it comes back at the next open if nothing newer hides it)", g, super::hex(&key)) });
+                            break;
+                        }
+                    }
+                }
+            }
         }
         if store.verif_disk_usage() != live_blocks * BS as u64 {
             out.push(Finding { props: own, what: format!("disk usage counter {} != live total {} (format v{})", store.verif_disk_usage(), live_blocks * BS as u64, version) });
